@@ -40,7 +40,7 @@ func (s *speller) n(k int, l string) int {
 	if k <= 1 {
 		return 0
 	}
-	return rapid.IntRange(0, k-1).Draw(s.t, l)
+	return uniform(s.t, k, l)
 }
 
 // alt reports whether to use a non-canonical alternative here.
